@@ -296,7 +296,9 @@ func runShared(rc *RunCtx) {
 		for t := 0; t < nt; t++ {
 			lg := &hostLog{}
 			ts := &taskState{runner: formula.NewRunner(), log: lg, data: sc.Specs[t].build(lg, loc)}
-			ts.runner.SetThis(ts.data)
+			if !sc.Specs[t].NoMap {
+				ts.runner.SetThis(ts.data)
+			}
 			ts.out = make([]string, 0, len(sc.Scripts[t]))
 			sts = append(sts, ts)
 		}
